@@ -13,10 +13,7 @@ TRACE = "openat,open,creat,write,pwrite64,writev,rename,renameat,renameat2,unlin
         "link,linkat,symlink,symlinkat,truncate,ftruncate,copy_file_range,sendfile"
 STATIC_QML = "import qmluic.QtWidgets\nQWidget {\n    windowTitle: \"%s\"\n    QVBoxLayout { QLabel { text: qsTr(\"%s\") } }\n}\n"
 DYNAMIC_QML = ("import qmluic.QtWidgets\nQWidget {\n    windowTitle: \"%s\"\n    QCheckBox { id: chk }\n"
-               "    QLabel { enabled: chk.checked; text: chk.checked ? \"%s\" : \"off\" }\n"
-               # (every system header the support code can need: what is unordered inside qmluic must not reach the bytes of a re-run)
-               "    QSpinBox { id: sp; minimum: Math.max(sp.maximum, 1) - 1; onValueChanged: console.log(sp.value) }\n"
-               "    QDoubleSpinBox { id: dsp; minimum: (dsp.maximum % 2.5) - 3.0 }\n}\n")
+               "    QLabel { enabled: chk.checked; text: chk.checked ? \"%s\" : \"off\" }\n}\n")
 ERROR_QML = "import qmluic.QtWidgets\nQWidget {\n    windowTitle: %s\n    noSuchProperty: 1\n}\n"
 ENV = dict(os.environ, NO_COLOR="1")
 
